@@ -16,374 +16,8 @@ import (
 	"github.com/alecthomas/participle/v2/lexer"
 )
 
-const vhGenSeed = 1      // @tier quick=1 thorough=1
 const vhGenGrammars = 48 // @tier quick=48 thorough=400
 const vhGenTokens = 4    // @tier quick=4 thorough=5
-
-type vhRand struct{ s uint64 }
-
-func (r *vhRand) next() uint64 {
-	r.s ^= r.s << 13
-	r.s ^= r.s >> 7
-	r.s ^= r.s << 17
-	return r.s
-}
-
-func (r *vhRand) intn(n int) int { return int(r.next() % uint64(n)) }
-
-// generator-side grammar
-type ggProd struct {
-	expr   *rx
-	fkinds []int
-	subs   []*ggProd
-	rt     reflect.Type
-}
-
-type ggGen struct {
-	r      *vhRand
-	nprod  int
-	noToks bool // do not generate lexer.Token / []lexer.Token fields
-	noNeg  bool // do not generate ~ and lookahead groups (C13's grammar class)
-}
-
-var ggTokNames = []string{"A", "B", "C", "A", "B", "Ws"} // the elided type is named now and then
-var ggVals = []string{"a", "b", "x"}
-
-func (g *ggGen) nullable(e *rx) bool {
-	switch e.kind {
-	case kLit, kTLit, kRef, kNeg:
-		return false
-	case kSeq:
-		for _, k := range e.kids {
-			if !g.nullable(k) {
-				return false
-			}
-		}
-		return true
-	case kAlt:
-		for _, k := range e.kids {
-			if g.nullable(k) {
-				return true
-			}
-		}
-		return false
-	case kGrp:
-		if e.mode == mOpt || e.mode == mStar {
-			return true
-		}
-		if e.mode == mNonEmpty {
-			return false
-		}
-		return g.nullable(e.kids[0])
-	case kCap:
-		return g.nullable(e.kids[0])
-	case kSub:
-		return true // decided by the sub-production; be conservative
-	case kLA:
-		return true
-	}
-	return true
-}
-
-func (g *ggGen) term(d int, inCap bool, p *ggProd) *rx {
-	for {
-		c := g.r.intn(100)
-		switch {
-		case c < 20:
-			return &rx{kind: kLit, s: ggVals[g.r.intn(len(ggVals))]}
-		case c < 27:
-			return &rx{kind: kTLit, s: ggVals[g.r.intn(len(ggVals))], typ: ggTokNames[g.r.intn(len(ggTokNames))]}
-		case c < 45:
-			return &rx{kind: kRef, typ: ggTokNames[g.r.intn(len(ggTokNames))]}
-		case c < 62 && d > 0:
-			return g.group(d-1, inCap, p)
-		case c < 80 && !inCap:
-			body := g.term(d-1, true, p)
-			if body.kind == kLA {
-				continue
-			}
-			kind := []int{fStr, fStr, fStrs, fBool, fTok, fToks}[g.r.intn(6)]
-			if g.noToks && (kind == fTok || kind == fToks) {
-				kind = fStrs
-			}
-			f := g.newField(p, kind, nil)
-			return &rx{kind: kCap, field: f, kids: []*rx{body}}
-		case c < 87 && !inCap && d > 0 && g.nprod < 3:
-			g.nprod++
-			sub := g.prod(d - 1)
-			f := g.newField(p, []int{fSubP, fSubPS}[g.r.intn(2)], sub)
-			return &rx{kind: kSub, field: f}
-		case c < 92:
-			if g.noNeg {
-				continue
-			}
-			t := g.term(0, true, p)
-			if t.kind != kLit && t.kind != kRef && t.kind != kTLit {
-				continue
-			}
-			return &rx{kind: kNeg, kids: []*rx{t}}
-		case c < 97 && d > 0 && !inCap && !g.noNeg:
-			return &rx{kind: kLA, neg: g.r.intn(2) == 0, kids: []*rx{g.alt(d-1, true, p)}}
-		}
-	}
-}
-
-func (g *ggGen) newField(p *ggProd, kind int, sub *ggProd) int {
-	// sometimes reuse the previous string / []string field (accumulation)
-	n := len(p.fkinds)
-	if sub == nil && n > 0 && g.r.intn(4) == 0 && (p.fkinds[n-1] == fStr || p.fkinds[n-1] == fStrs) && (kind == fStr || kind == fStrs) {
-		return n - 1
-	}
-	p.fkinds = append(p.fkinds, kind)
-	p.subs = append(p.subs, sub)
-	return n
-}
-
-func (g *ggGen) group(d int, inCap bool, p *ggProd) *rx {
-	modes := []int{mOnce, mOpt, mStar, mPlus, mNonEmpty}
-	for i := 0; i < 30; i++ {
-		m := modes[g.r.intn(len(modes))]
-		mark := len(p.fkinds)
-		body := g.alt(d, inCap, p)
-		if (m == mStar || m == mPlus) && g.nullable(body) {
-			// a repetition body that can match nothing is a grammar bug
-			p.fkinds, p.subs = p.fkinds[:mark], p.subs[:mark]
-			continue
-		}
-		return &rx{kind: kGrp, mode: m, kids: []*rx{body}}
-	}
-	return &rx{kind: kLit, s: "a"}
-}
-
-func (g *ggGen) seq(d int, inCap bool, p *ggProd) *rx {
-	n := 1 + g.r.intn(3)
-	s := &rx{kind: kSeq}
-	for i := 0; i < n; i++ {
-		s.kids = append(s.kids, g.term(d, inCap, p))
-	}
-	if len(s.kids) == 1 {
-		return s.kids[0]
-	}
-	return s
-}
-
-func (g *ggGen) alt(d int, inCap bool, p *ggProd) *rx {
-	n := 1
-	if g.r.intn(3) == 0 {
-		n = 2 + g.r.intn(2)
-	}
-	if n == 1 {
-		return g.seq(d, inCap, p)
-	}
-	a := &rx{kind: kAlt}
-	for i := 0; i < n; i++ {
-		for j := 0; ; j++ {
-			mark := len(p.fkinds)
-			s := g.seq(d, inCap, p)
-			if !g.nullable(s) {
-				a.kids = append(a.kids, s)
-				break
-			}
-			p.fkinds, p.subs = p.fkinds[:mark], p.subs[:mark]
-			if j > 20 {
-				a.kids = append(a.kids, &rx{kind: kLit, s: "a"})
-				break
-			}
-		}
-	}
-	return a
-}
-
-func ggHasCap(e *rx) bool {
-	if e.kind == kCap || e.kind == kSub {
-		return true
-	}
-	if e.kind == kLA {
-		return false
-	}
-	for _, k := range e.kids {
-		if ggHasCap(k) {
-			return true
-		}
-	}
-	return false
-}
-
-func (g *ggGen) prod(d int) *ggProd {
-	for {
-		p := &ggProd{}
-		saved := g.nprod
-		p.expr = g.alt(d, false, p)
-		if ggHasCap(p.expr) && !g.nullable(p.expr) {
-			return p
-		}
-		g.nprod = saved
-	}
-}
-
-// ---------- tag printer (independent of grammar.go and of the tag parser) ----------
-
-type ggChunk struct {
-	s     string
-	field int // -1: belongs to the next explicit field
-}
-
-func (p *ggProd) chunks() []ggChunk {
-	var out []ggChunk
-	emit := func(s string, f int) { out = append(out, ggChunk{s, f}) }
-	var pr func(e *rx, top bool)
-	pr = func(e *rx, top bool) {
-		switch e.kind {
-		case kLit:
-			emit(strconv.Quote(e.s), -1)
-		case kTLit:
-			emit(strconv.Quote(e.s)+":"+e.typ, -1)
-		case kRef:
-			emit(e.typ, -1)
-		case kSeq:
-			if !top {
-				emit("(", -1)
-			}
-			for _, k := range e.kids {
-				pr(k, false)
-			}
-			if !top {
-				emit(")", -1)
-			}
-		case kAlt:
-			if !top {
-				emit("(", -1)
-			}
-			for i, k := range e.kids {
-				if i > 0 {
-					emit("|", -1)
-				}
-				pr(k, true)
-			}
-			if !top {
-				emit(")", -1)
-			}
-		case kGrp:
-			emit("(", -1)
-			pr(e.kids[0], true)
-			emit(")", -1)
-			switch e.mode {
-			case mOpt:
-				emit("?", -1)
-			case mStar:
-				emit("*", -1)
-			case mPlus:
-				emit("+", -1)
-			case mNonEmpty:
-				emit("!", -1)
-			}
-		case kCap:
-			emit("@", e.field)
-			k := e.kids[0]
-			if k.kind == kSeq || k.kind == kAlt || (k.kind == kGrp && k.mode != mOnce) {
-				emit("(", e.field)
-				pr(k, true)
-				emit(")", e.field)
-			} else {
-				pr(k, false)
-			}
-		case kSub:
-			emit("@@", e.field)
-		case kNeg:
-			emit("~", -1)
-			pr(e.kids[0], false)
-		case kLA:
-			if e.neg {
-				emit("(?!", -1)
-			} else {
-				emit("(?=", -1)
-			}
-			pr(e.kids[0], true)
-			emit(")", -1)
-		}
-	}
-	pr(p.expr, true)
-	return out
-}
-
-// tags distributes the chunks over the fields: a chunk without a field goes
-// to the field of the next chunk that has one (tags are lexed field by field,
-// in order, as one token stream).
-func (p *ggProd) tags() []string {
-	cs := p.chunks()
-	tags := make([]string, len(p.fkinds))
-	cur := 0
-	for i := range cs {
-		f := cs[i].field
-		if f < 0 {
-			for j := i; j < len(cs); j++ {
-				if cs[j].field >= 0 {
-					f = cs[j].field
-					break
-				}
-			}
-			if f < 0 {
-				f = len(tags) - 1
-			}
-		}
-		if f < cur {
-			f = cur
-		}
-		cur = f
-		tags[f] += " " + cs[i].s
-	}
-	return tags
-}
-
-func (p *ggProd) rtype() reflect.Type {
-	if p.rt != nil {
-		return p.rt
-	}
-	tags := p.tags()
-	fields := make([]reflect.StructField, 0, len(p.fkinds))
-	for i, k := range p.fkinds {
-		var t reflect.Type
-		switch k {
-		case fStr:
-			t = reflect.TypeOf("")
-		case fStrs:
-			t = reflect.TypeOf([]string{})
-		case fBool:
-			t = reflect.TypeOf(true)
-		case fTok:
-			t = reflect.TypeOf(lexer.Token{})
-		case fToks:
-			t = reflect.TypeOf([]lexer.Token{})
-		case fSubP:
-			t = reflect.PtrTo(p.subs[i].rtype())
-		case fSubPS:
-			t = reflect.SliceOf(reflect.PtrTo(p.subs[i].rtype()))
-		}
-		tag := tags[i]
-		if tag == "" {
-			tag = " "
-		}
-		fields = append(fields, reflect.StructField{Name: "F" + strconv.Itoa(i), Type: t, Tag: reflect.StructTag(tag)})
-	}
-	// every generated node also records its position and tokens
-	fields = append(fields,
-		reflect.StructField{Name: "Pos", Type: reflect.TypeOf(lexer.Position{})},
-		reflect.StructField{Name: "EndPos", Type: reflect.TypeOf(lexer.Position{})},
-		reflect.StructField{Name: "Tokens", Type: reflect.TypeOf([]lexer.Token{})})
-	p.rt = reflect.StructOf(fields)
-	return p.rt
-}
-
-// vhGenerated returns the root struct type of generated grammar number idx.
-func vhGenerated(idx int, noToks, noNeg bool) reflect.Type {
-	r := &vhRand{s: uint64(vhGenSeed)*0x9E3779B97F4A7C15 + uint64(idx+1)*0xD1B54A32D192ED03 + 1}
-	for i := 0; i < 4; i++ {
-		r.next()
-	}
-	g := &ggGen{r: r, noToks: noToks, noNeg: noNeg}
-	root := g.prod(2)
-	return root.rtype()
-}
 
 var vhAnyType = reflect.TypeOf((*interface{})(nil)).Elem()
 
